@@ -190,6 +190,8 @@ def make_record(message, payload, created):
                                (payload,), None)
     if created is not None:
         record.created = created
+        record.msecs = (created - int(created)) * 1000.0
+        record.relativeCreated = 0.0
     return record
 
 
@@ -441,6 +443,59 @@ HISTORY_PAYLOADS = [{"f": True}, {"f": 1.0}, {"f": False, "g": 0.0}, {"f": 1}, {
                     {"f": 1, "g": "x"}]
 
 
+def run_two_formatters(case):
+    """One record formatted by two formatters one after the other (two handlers of one
+    logger): each output must be what that formatter gives for a fresh copy of the record"""
+    from cobald.monitor.format_json import JsonFormatter
+    from cobald.monitor.format_line import LineProtocolFormatter
+
+    def make(spec):
+        if spec[0] == "line":
+            return LineProtocolFormatter(tags=set(spec[1]) if spec[1] is not None else None,
+                                         resolution=spec[2])
+        if spec[0] == "json":
+            return JsonFormatter(fmt=spec[1], datefmt=spec[2])
+        return logging.Formatter("%(asctime)s %(message)s", datefmt=spec[1])
+
+    payload = case["payload"]
+    shared = make_record("m", dict(payload), 1600000000.25)
+    outputs = []
+    for spec in case["formatters"]:
+        try:
+            shared_out = make(spec).format(shared)
+            fresh_out = make(spec).format(make_record("m", dict(payload), 1600000000.25))
+        except Exception as err:  # noqa: B902
+            return "formatting raised %s: %s" % (type(err).__name__, err)
+        outputs.append((shared_out, fresh_out))
+    for index, (shared_out, fresh_out) in enumerate(outputs):
+        if shared_out != fresh_out:
+            return ("formatter %d of %r gives %r for a record another formatter has seen, %r "
+                    "for a fresh one" % (index, case["formatters"], shared_out, fresh_out))
+    return None
+
+
+TWO_FORMATTERS = [
+    ("line", ["t"], 10), ("line", None, None), ("json", None, None), ("json", {"d": 1}, "%Y"),
+    ("json", None, ""), ("json", None, "%H:%M"), ("plain", "%d.%m.%Y"),
+]
+
+
+def shard_two_formatters(args):
+    acc = Acc()
+    for first, second in itertools.permutations(TWO_FORMATTERS, 2):
+        for payload in ({"f": 1}, {"t": "r", "f": 2.5}, {"time": 12.5, "f": 1}):
+            case = {"kind": "two-formatters", "formatters": [list(first), list(second)],
+                    "payload": payload}
+            problem = run_two_formatters(case)
+            acc.case(nontrivial_key=json.dumps(case, sort_keys=True),
+                     sample=case if acc.evaluations % 37 == 0 else None)
+            acc.outcome(problem is None)
+            if problem is not None:
+                acc.violation("history:%s-after-%s:record-state-leaks" % (second[0], first[0]),
+                              problem, case)
+    return acc
+
+
 def shard_history(args):
     (kind,) = args
     acc = Acc()
@@ -522,7 +577,8 @@ def shard_json(args):
 def shard(args):
     kind, rest = args[0], args[1:]
     return {"single": shard_single, "pair": shard_pair, "config": shard_config,
-            "json": shard_json, "history": shard_history}[kind](rest)
+            "json": shard_json, "history": shard_history,
+            "two-formatters": shard_two_formatters}[kind](rest)
 
 
 # ---------------------------------------------------------------------------------------
@@ -538,7 +594,7 @@ def run(ctx):
             shards.append(("pair", pos_a, pos_b, first, pair_len))
     shards += [("config", config) for config in TAG_CONFIGS]
     shards += [("json", datefmt) for datefmt in DATEFMTS]
-    shards += [("history", "line"), ("history", "json")]
+    shards += [("history", "line"), ("history", "json"), ("two-formatters",)]
     ctx.pmap(shard, shards)
     ctx.meta.update(
         rule="every string of length <= %d over %r at each of %r, every pair of strings of "
@@ -561,6 +617,8 @@ def run(ctx):
 
 
 def replay(data):
+    if data["kind"] == "two-formatters":
+        return run_two_formatters(data)
     if data["kind"] == "history":
         return run_history(data["case"])
     if data["kind"] == "json":
